@@ -1,7 +1,7 @@
 \* every in-scope text of length <= 6 over the full class alphabet
 SPECIFICATION Spec
 CONSTANTS
-  Chars = {"LP", "RP", "SP", "TAB", "LF", "CR", "DQ", "BAR", "SEMI", "A", "D", "HASH", "COLON", "MINUS"}
+  Chars = {"LP", "RP", "SP", "TAB", "LF", "CR", "DQ", "BAR", "SEMI", "A", "D", "HASH", "COLON", "MINUS", "BS"}
   MaxLen = 6
   MaxDepth = 2
 INVARIANT TypeOK
